@@ -7,11 +7,15 @@ type nat =
 | O
 | S of nat
 
+val option_map : ('a1 -> 'a2) -> 'a1 option -> 'a2 option
+
 val length : 'a1 list -> nat
 
 val app : 'a1 list -> 'a1 list -> 'a1 list
 
 val add : nat -> nat -> nat
+
+val sub : nat -> nat -> nat
 
 type positive =
 | XI of positive
@@ -31,6 +35,8 @@ val eqb : bool -> bool -> bool
 
 module Nat :
  sig
+  val add : nat -> nat -> nat
+
   val eqb : nat -> nat -> bool
 
   val leb : nat -> nat -> bool
@@ -42,6 +48,8 @@ val hd : 'a1 -> 'a1 list -> 'a1
 
 val tl : 'a1 list -> 'a1 list
 
+val nth : nat -> 'a1 list -> 'a1 -> 'a1
+
 val map : ('a1 -> 'a2) -> 'a1 list -> 'a2 list
 
 val flat_map : ('a1 -> 'a2 list) -> 'a1 list -> 'a2 list
@@ -52,7 +60,40 @@ val existsb : ('a1 -> bool) -> 'a1 list -> bool
 
 val forallb : ('a1 -> bool) -> 'a1 list -> bool
 
+val filter : ('a1 -> bool) -> 'a1 list -> 'a1 list
+
+val combine : 'a1 list -> 'a2 list -> ('a1 * 'a2) list
+
+val seq : nat -> nat -> nat list
+
 val ex_keep : (((((nat * n) * z) * z list) * z option) * positive) * bool
+
+val index_of : nat -> nat list -> nat option
+
+val memb : nat -> nat list -> bool
+
+val nodupb : nat list -> bool
+
+val inorder_prefix : nat -> nat -> nat list -> nat
+
+val insert : nat -> nat list -> nat list
+
+val isort : nat list -> nat list
+
+val before_first : nat -> nat list -> nat list
+
+type cmres =
+| CMErr
+| CMGap
+| CMOk of nat list * nat list
+
+val ooo_scan : nat -> nat list -> nat -> nat -> bool -> nat list option
+
+val ccmap : bool -> bool -> nat -> nat -> nat list -> (nat -> bool) -> cmres
+
+val slot_pos : nat -> nat list -> nat -> nat option
+
+val ref_slots : nat -> nat list -> nat -> nat -> nat list
 
 type op =
 | OLog of nat
@@ -96,6 +137,7 @@ type expr =
 | ECmp of expr * op list * expr list
 | EMCall of nat * op * expr * expr list
 | EMinMax of op * expr list
+| ECCall of op * nat * nat * expr * nat * nat list * expr list
 
 type starget =
 | TName of nat
@@ -177,7 +219,8 @@ val step : sem -> instr -> state -> state * rmode
 val run : sem -> instr list -> state -> rmode -> state * rmode
 
 type flags = { fx_minmax : bool; fx_mcall : bool; fx_inplace : bool;
-               fx_cascade : bool }
+               fx_cascade : bool; fx_ccsimple : bool; fx_cckeep : bool;
+               fx_ccrecv : bool; cc_sorted : bool }
 
 type ctx =
 | CVal
@@ -195,6 +238,24 @@ val thread_tail :
 val finish : ctx -> gres -> gres
 
 val finish_bool : ctx -> instr list -> nat -> nat -> gres
+
+val bsimple : expr -> bool
+
+val tsimple : expr -> bool
+
+val csimple : flags -> expr -> bool
+
+val gen_sel :
+  (nat -> gres) list -> nat list -> nat -> (instr list * operand list) * nat
+
+val lookup : nat -> (nat * operand) list -> operand
+
+val ccall_code :
+  flags -> ctx -> op -> nat -> nat -> (nat -> gres) -> nat -> nat list ->
+  (nat -> bool) -> (nat -> gres) list -> nat -> gres
+
+val ccall_rejected :
+  flags -> nat -> nat -> nat -> nat list -> (nat -> bool) -> bool
 
 val gen : flags -> ctx -> expr -> nat -> gres
 
@@ -240,6 +301,8 @@ val sefr : flags -> bool -> expr -> nat -> (instr list * rexpr) * nat
 
 val gen_stmt : flags -> stmt -> nat -> instr list * nat
 
+val rejected : flags -> expr -> bool
+
 val vtruth : val0 -> bool
 
 val is_logging : val0 -> bool
@@ -262,4 +325,11 @@ val run_stmt : flags -> stmt -> state * rmode
 
 val ref_run : stmt -> sres
 
+val mk_flags8 :
+  bool -> bool -> bool -> bool -> bool -> bool -> bool -> bool -> flags
+
 val mk_flags : bool -> bool -> bool -> bool -> flags
+
+val starget_rejected : flags -> starget -> bool
+
+val stmt_rejected : flags -> stmt -> bool
